@@ -118,7 +118,7 @@ func init() {
 	facet.Register(facet.F[TransIn]{
 		Prop: "C19", Name: "transform/identity",
 		Rule:  valueRule + "; identity Transform and identity TransformWithTransformer must return the same value, call back every model member exactly once (children before parents), pair Enter/Exit, and stop at a callback error",
-		Quick: 30000, Thorough: 200000,
+		Quick: 30000, Thorough: 60000,
 		Gen: func(t *rapid.T) TransIn {
 			in := TransIn{V: genValue(t), Stop: -1}
 			if rapid.IntRange(0, 7).Draw(t, "stopmode") == 0 {
@@ -249,7 +249,7 @@ func init() {
 	facet.Register(facet.F[ReplIn]{
 		Prop: "C19", Name: "transform/replace-one",
 		Rule:  valueRule + "; one model member (any depth, also set members) is replaced by a different value of exactly its type from the Transform callback / Transformer.Enter / Transformer.Exit: the result must be the spec with that member replaced, all other members unchanged",
-		Quick: 30000, Thorough: 200000,
+		Quick: 30000, Thorough: 70000,
 		Gen: func(t *rapid.T) ReplIn {
 			v := genValue(t)
 			ms := members(normalize(v))
